@@ -59,27 +59,36 @@ func (pq *clientPacketQueue) addToQueue(header *parser.PacketHeader, v []any) {
 		errV := args[0]
 		hasError := !errV.IsNil()
 
+		pq.mu.Lock()
+		// This callback can outlive its packet: a packet that is re-sent upon reconnection (`drainQueue(true)`)
+		// has an ack registered for each try, and the losing one (e.g. the timeout of the former try) fires
+		// after the packet was removed from the queue. It must neither remove the current head of the queue
+		// (another packet, or nothing) nor call the user's ack for a second time.
+		if len(pq.queuedPackets) == 0 || pq.queuedPackets[0] != packet {
+			pq.mu.Unlock()
+			pq.debug.Log("Packet with ID", packet.id, "has already been acknowledged or discarded")
+			return nil
+		}
+
+		remove := !hasError
 		if hasError {
 			packet.mu.Lock()
 			tryCount := packet.tryCount
 			packet.mu.Unlock()
 			if tryCount > pq.socket.config.Retries {
 				pq.debug.Log("Packet with ID", packet.id, "discarded after", tryCount)
-				pq.mu.Lock()
-				pq.queuedPackets = pq.queuedPackets[1:]
-				pq.mu.Unlock()
-				if haveAck {
-					rv.Call(args)
-				}
+				remove = true
 			}
 		} else {
 			pq.debug.Log("Packet with ID", packet.id, "successfully sent")
-			pq.mu.Lock()
+		}
+		if remove {
 			pq.queuedPackets = pq.queuedPackets[1:]
-			pq.mu.Unlock()
-			if haveAck {
-				rv.Call(args)
-			}
+		}
+		pq.mu.Unlock()
+
+		if remove && haveAck {
+			rv.Call(args)
 		}
 		packet.mu.Lock()
 		packet.pending = false
